@@ -231,3 +231,27 @@ Proof.
   - apply failed_frame_lockups_fixed. exact G.
   - destruct H as [H|H]; [discriminate|]. apply failed_frame_lockups_no_claim. exact H.
 Qed.
+
+(* ---------- the outbound set: what is in the ETX cache after a call tree ---------- *)
+(* the sends of the frames that, with all the frames around them, ended well, in program order *)
+Fixpoint kept (f : eframe) : list N :=
+  match f with
+  | EClaim _ _ _ => []
+  | EEmit e => [e]
+  | ECall body fails => if fails then [] else flat_map kept body
+  end.
+
+Lemma outbound_kept fixd f : forall st, no_claim f = true -> e_etxs (eexec fixd f st) = e_etxs st ++ kept f.
+Proof.
+  induction f as [k etx h|etx|body fails IHb] using eframe_ind'; intros st H; cbn [eexec no_claim kept] in *.
+  - discriminate.
+  - reflexivity.
+  - assert (forall s, e_etxs (fold_left (fun a g => eexec fixd g a) body s) = e_etxs s ++ flat_map kept body) as X.
+    { clear st. induction body as [|g l IH]; intros s; cbn [fold_left flat_map]; [rewrite app_nil_r; reflexivity|].
+      cbn [forallb] in H. apply andb_prop in H as [Hg Hl].
+      inversion IHb as [|? ? Pg Pl]; subst.
+      rewrite (IH Pl Hl), (Pg s Hg), app_assoc. reflexivity. }
+    destruct fails.
+    + unfold evm_revert. cbn [e_etxs]. rewrite X, firstn_length_app, app_nil_r. reflexivity.
+    + apply X.
+Qed.
